@@ -242,11 +242,17 @@ pub fn install_hook(oracle: OracleRef, registry: RegistryRef, ledger: LedgerRef)
                 // committed an index it does not hold (or holds with a gap)
                 let have: Vec<u64> = entries.iter().map(|e| e.index).collect();
                 let first = h.log.first_entry_id();
+                let prev_zero_recent = o.prev_zero_sent.get(&v.node_id).is_some_and(|t| crate::oracle::vnow().saturating_sub(*t) <= 2000)
+                    && h.log.last_entry_id() < v.commit_index;
                 if old_commit + 1 >= first && first != 0 {
                     o.violate(
                         if is_leader { "C09" } else { "C07" },
                         "committed_index_not_in_log",
-                        json!({"node": v.node_id, "from": old_commit + 1, "to": v.commit_index, "have": have, "role": v.role}),
+                        json!({"node": v.node_id, "from": old_commit + 1, "to": v.commit_index, "have": have, "role": v.role,
+                               "log_first": first, "log_last": h.log.last_entry_id(),
+                               // cause attribution (KF15 family): the node was sent a prev (0,0) "start from scratch"
+                               // request a moment ago, which reset()s the log - entries it had just committed included
+                               "log_reset_by_prev_zero_request": prev_zero_recent}),
                     );
                 }
             }
